@@ -124,6 +124,22 @@ CLAIMS = {
             "TLC judges the yielded prefix, the record number printed by print_exception_details and the context bytes.",
             TB + "Faults are injected into records produced by the real encoder under the packaged configuration.",
             "3 C10"),
+    'C17': ("TLA+ spec of the required report (Inspect.tla: invalid classes, writer facts, don't-care at bytes "
+            "1012-1013) evaluated by TLC on recorded ipm_info calls over real writer files; probe rule model-checked at "
+            "scaled sizes (pre-repair rule kept as reproducer)",
+            "Writer files for every block count 1..10 (thorough 16) x 3 encodings x blocked/unblocked, unblocked files "
+            "engineered with 0x40 0x40 at 1012-1013, and the invalid classes at their boundaries (0..23/24 bytes, "
+            "max/max+1 first length, every unconfigured bit) are inspected by the real ipm_info; TLC decides each report "
+            "from the file head, its length and the writer facts.",
+            TB + "A reported encoding label is projected to a family by what it encodes the digits to.", "3 C17"),
+    'C18': ("TLA+ spec (ParamCore/Param: index phase, trailer, row filter, column slicing with the -8 shift, composed "
+            "with the Vbs unframing) model-checked by TLC (MC_Param) and evaluated by TLC on recorded extractions",
+            "TLC exhaustively checks refusal-without-trailer, rows = requested table's rows after the trailer in order, "
+            "and expanded/compressed agreement over every file of <= 5 (thorough 6) logical rows; synthetic real files "
+            "(random index assignments, interleaved tables, packaged and generated layouts, position-coded rows, "
+            "ASCII/EBCDIC, blocked/unblocked, both forms, missing trailer, unconfigured table) are read by "
+            "IpmParamReader and mci_ipm_param_to_csv and TLC decides every returned row set.",
+            TB + "The csv module parses what csv.DictWriter wrote.", "3 C18"),
 }
 
 PENDING = "check not built yet in this round (specification under construction; see DESIGN.md section 3)"
